@@ -39,6 +39,7 @@ structure DS where
   exec : String := "def"
   nOpen : Nat := 0
   nDlv : Nat := 0
+  intrTotal : Nat := 0
   dead : Bool := false
 
 def ctlStr (g : Cfg) (s : St) : String :=
@@ -72,7 +73,8 @@ def showSt (d : DS) (what : String) : String × DS :=
   (s!"R {what} open=[{opens}] del=[{dels}] q={q} re={s.re} task={taskStr s.task} arm={b2s s.k.armed} edge={b2s s.k.edge} closed={cl} reads={s.reads} idle={s.idle} ctl={ctlStr d.g s}",
    { d with nOpen := s.opens.length, nDlv := s.dlv.length })
 
-def fuelOf (g : Cfg) (s : St) : Nat := 16 + 4 * ((if g.udp then s.k.dq.length else s.k.rq.length) / (if g.rbs = 0 then 1 else g.rbs) + 1) + s.k.intr
+def fuelOf (g : Cfg) (s : St) : Nat :=
+  16 + 4 * ((if g.udp then s.k.dq.length + 1 else s.k.rq.length / (if g.rbs = 0 then 1 else g.rbs) + 1) + s.k.intr)
 
 /-- deliver a report, let the poller finish the batch and (engine's own executor) the task run to its end -/
 def deliver (d : DS) (inn out : Bool) : Option St :=
@@ -132,7 +134,7 @@ partial def loop (h : IO.FS.Stream) (d : DS) : IO Unit := do
       | none => say d "nop"
     | ["intr", n] =>
       match step g s (.intr n.toNat!) with
-      | some s => say { d with s } "intr"
+      | some s => say { d with s, intrTotal := d.intrTotal + n.toNat! } "intr"
       | none => say d "nop"
     | "event" :: _ | ["poll"] =>
       -- flags the kernel reports
@@ -179,7 +181,8 @@ partial def loop (h : IO.FS.Stream) (d : DS) : IO Unit := do
     | ["drain"] =>
       if !(g.isAsync && d.exec == "park") then say d "nop"
       else
-        let bound := 16 + 4 * ((if g.udp then s.k.dq.length else s.k.rq.length) / g.rbs + 1)
+        let units := if g.udp then s.k.dq.length + 1 else s.k.rq.length / g.rbs + 1
+        let bound := 16 + 4 * (units + d.intrTotal)
         match runT g bound s with
         | some s' => say { d with s := s' } "drain"
         | none =>
